@@ -153,7 +153,7 @@ theorem kronList_append_single (ops : List Mat) (m : Mat) (h : ops ≠ []) :
   | cons x r => simp [kronList, List.foldl_append]
 
 theorem pauliMat_rows (p : Nat) : (pauliMat p).rows = 2 ∧ (pauliMat p).cols = 2 := by
-  unfold pauliMat; split <;> simp [identity]
+  exact ⟨rfl, rfl⟩
 
 /-- the loop of `qubit_operator_sparse` over the factors of one Pauli string keeps a square
 matrix of size `2^tensor_factor` -/
